@@ -24,8 +24,9 @@ CLAIMED = {
  "C17": ("proof", "C17_comm, C17_sub, C17_units, C17_cancel, C17_assoc, C17_mono for all operands; C17_nsmul by induction on n (a*n equals the n-fold sum); C17_mul_div.", "closed forms of the kernels + omega + induction; correspondence of the kernels"),
  "C18": ("proof", "C18_shr (floor division by 2^r), C18_shl (exact when in range, never the opposite sign), C18_neg_count, C18_and for all x and all counts in [INT_MIN, 63].", "generic lemma on x*2^r mod 2^63 + omega; correspondence"),
  "C13": ("proof", "Abacus algorithm: C13_abacus_acc/real/square/mono/zero/neg for ALL inputs 0 <= v < 2^48 and all negatives, by the loop invariant (induction on the digit position) "
-         "including absence of uint64 wrap-around; the result is exactly floor(sqrt(v*2^16)). std::sqrt algorithm: PARTIAL - the accuracy theorem over the IEEE model (C13_std_full) is stated, not proved; "
-         "that back-end is tied by bit-exact correspondence (perfect squares +-1, midpoints k^2+k, powers of two, stratified random) of the Lean IEEE-754 model with the hardware.", "loop invariant by induction + nlinarith/omega; correspondence on both back-ends"),
+         "including absence of uint64 wrap-around; the result is exactly floor(sqrt(v*2^16)). std::sqrt algorithm: C13_std_acc/square/mono/zero/neg for ALL inputs as well, from the rounding theory of the exact IEEE-754 model "
+         "(FP.sqrt correctly rounded, exact scaling, one rounding of +0.5, truncation: result = floor(W), |W - (sqrt(v*2^16)+1/2)| <= 2^-19; monotone because distinct roots are >= 2^-17 apart); "
+         "the IEEE model is tied to the hardware by bit-exact correspondence (perfect squares +-1, midpoints k^2+k, powers of two, stratified random) of the Lean IEEE-754 model with the hardware.", "loop invariant by induction + nlinarith/omega; correspondence on both back-ends"),
  "C09": ("proof", "C09_sin_acc / C09_cos_acc: for EVERY raw v in [-2pi, 2pi] (823 549 values) the model's result is within 4 ulp + |arcsin(sin x)|^9/9! of Real.sin (Mathlib) - "
          "analytic range reduction for all arguments (omega), kernel-checked enumeration (52 decide+kernel chunks, no native_decide) of the polynomial at all 205 887 reduced arguments against a "
          "degree-15 Taylor enclosure of Real.sin derived from Complex.exp_bound', and the real-analysis glue (sin(x+n*pi), Lipschitz, arcsin o sin, bounds on pi). C09_range and C09_periodic for every |v| < 2^62 and every integer k. "
@@ -55,7 +56,7 @@ CLAIMED = {
          "UBSan+ASan+_GLIBCXX_ASSERTIONS+float-cast-overflow leg on ~1.2M calls (NaN/extreme arguments, every entry point) agreeing with the model's verdict.", "per-entry-point isOk theorems (omega, kernel enumerations) + sanitizer leg"),
  "C08": ("proof", "Premises proved in Lean: C08_no_ub (UB-freedom theorems of C07: a UB-free call has one value for every conforming compiler and is a constant expression), C08_shl_cxx20 (C++17 value of signed << equals the C++20 value), abacus sqrt = floor sqrt for all inputs (C13). "
          "PARTIAL: the quantifier over compilers/levels/standards/evaluation time is outside Lean and is SAMPLED: value legs (quick: g++ c++17 -O2, clang++ c++20 -O2, sanitizer, abacus; thorough: 2 compilers x 4 levels x 3 standards x abacus) compared with the one model, "
-         "and the constant-evaluation leg (350-4000 static_asserts derived from the model compiled under g++/clang++ x c++17+abacus/c++20/c++2b). |abacus - std::sqrt| <= 1 is stated (C08_sqrt_algos_full) and proved on kernel-evaluated sample points only.", "UB-freedom theorems + configuration matrix correspondence + constant-evaluation leg"),
+         "and the constant-evaluation leg (350-4000 static_asserts derived from the model compiled under g++/clang++ x c++17+abacus/c++20/c++2b). C08_sqrt_algos: |abacus - std::sqrt| <= 1 for ALL v in [0, 2^48) (from C13_abacus_real and C13_std_acc).", "UB-freedom theorems + configuration matrix correspondence + constant-evaluation leg"),
  "C05": ("proof", "Over the exact IEEE-754 model (Model/Float.lean) for BOTH formats and EVERY bit pattern (C05_to_float: all 2^32, C05_to_double: all 2^64, via ofBits_inFmt): finite |v| < 2^31-1 => result r is not NaN and |r - v*65536| <= 1/2 + (|v|*65536+1/2)*2^-p, "
          "and r is exactly round-half-away-from-zero whenever |v|*65536+1/2 is representable in the source type; otherwise (>= 2^31-1, inf, NaN) => NaN. C05_toDouble: exact for every |raw| <= 2^53. C05_toFp: result = RN_F(raw)/65536 exactly, "
          "relative error <= 2^-p, a value of the format, for every int64 raw and both formats. C05_roundtrip_partial: fixed->double->fixed is the identity for |x| < 2^31-1; C05_sliver: NaN for 2^31-1 <= |x| (the property text contradicts itself there, see DESIGN.md). "
@@ -66,7 +67,7 @@ CLAIMED = {
          "PARTIAL: the 2-ulp quasi-monotonicity clause is stated (C11_atan_mono2_full) and carried by correspondence (exhaustive on [0,200000] raw with running maximum + stratified) only.", "analytic composition (Mathlib arctan identities, omega, nlinarith) + kernel enumeration of the polynomial kernel; correspondence"),
  "C14": ("proof", "For EVERY pair with |a|,|b| < 2^31 and any square-root back-end within one unit of the true root (SqrtNear): |hypot - sqrt(a^2+b^2)| <= 2 ulp when both operands are below 16384, <= 1.5e-4 relative otherwise; exact symmetry and sign independence; never NaN or negative. "
          "Analytic proof over the integers for all inputs (three branches as inequalities between squares, shift amounts from countl_zero via Nat.log2, no enumeration), lifted to Real.sqrt. The abacus back-end satisfies SqrtNear by the loop-invariant theorem: C14_abacus is unconditional. "
-         "PARTIAL: for the std::sqrt back-end the theorem carries the explicit hypothesis SqrtNear .std (not yet derived from the IEEE model); that back-end is tied by correspondence on boundary pairs (clz boundaries, 2^16/2^30 thresholds, random) in both builds.", "integer inequalities (omega, nlinarith) + Real.sqrt lemmas; correspondence on both back-ends"),
+         "The std::sqrt back-end satisfies SqrtNear by the rounding theory of the IEEE model (sqrtNear_std): C14_std is unconditional too. Both back-ends are tied by correspondence on boundary pairs (clz boundaries, 2^16/2^30 thresholds, random) in both builds.", "integer inequalities (omega, nlinarith) + Real.sqrt lemmas; correspondence on both back-ends"),
 }
 NA_DEFAULT = "check under construction in this round (the framework is built property by property); not a claim that the technique cannot apply"
 
